@@ -8,7 +8,7 @@ import tprog, gen_dag
 PROP = 'C17'
 LEAN_TARGETS = ['Props.C17']
 REQUIRED_THEOREMS = ['Props.C17.each_fn_once', 'Props.C17.trace_linear', 'Props.C17.postorder_covers_reachable',
-                     'Props.C17.untracked_has_no_history']
+                     'Props.C17.untracked_has_no_history', 'Props.C17.loop_is_iterative_and_linear']
 RULE = ('chains of depth 10..2000 (quick) / 5000 (thorough) and wide fan-out graphs over add/mul/neg/clone, run through the '
         'model and the implementation with the full engine trace compared (each recorded op called exactly once, in a topological '
         'order); programs whose ops run under no_grad or on operands that do not require grad (results must hold no children and '
